@@ -377,7 +377,20 @@ func runC06(c *RunCtx) {
 		}
 		bad = g.Value(bn)
 		okBad := breakForEncode(reflect.ValueOf(bad).Elem(), schemaOf(bn))
-		if !okBad || t.Intn(4) == 0 {
+		switch {
+		case t.Intn(3) == 0:
+			// a value outside the encoder's guarantee: a nested pointer part missing, bare or as
+			// the payload of a frame
+			for _, bn2 := range []string{"sample.RootPacket", "sample.NestedPacket"} {
+				if t.Intn(2) == 0 || bn2 == "sample.NestedPacket" {
+					v := g.Value(bn2)
+					if nilNested(reflect.ValueOf(v).Elem(), schemaOf(bn2)) {
+						bad = v
+						break
+					}
+				}
+			}
+		case !okBad || t.Intn(4) == 0:
 			bad = newValue(pickType(t, 2)) // constructor/zero value: nested parts absent
 		}
 		before := cloneBytes(buf.Bytes())
